@@ -359,6 +359,11 @@ func ClassifyErr(v ssa.Value, at ssa.Instruction) ErrClass {
 			case "github.com/pkg/errors.New", "errors.New", "fmt.Errorf", "github.com/pkg/errors.Errorf":
 				return ErrNonNil
 			case "github.com/pkg/errors.Wrap", "github.com/pkg/errors.Wrapf", "github.com/pkg/errors.WithStack", "github.com/pkg/errors.WithMessage":
+				// `err := errors.Wrap(f(), "…"); if err != nil { return err }`: the wrapped value
+				// itself was tested
+				if at != nil && nonNilAt(v, at) {
+					return ErrNonNil
+				}
 				return rec(x.Call.Args[0])
 			}
 		}
